@@ -153,13 +153,14 @@ def _c07_jobs(tier):
     dl = 75 if q else 840
     for st in ("fifo", "lifo", "pool"):
         # 2 threads: bound 3 (quick) / 4; 3 threads at bound 2 / 3 (ABA-type bugs need 3 threads, see DESIGN 3/C07)
-        n2, n3 = (3, 5) if q else (2, 3)   # thorough: 15 jobs, one wave on 16 cores
+        n2, n3 = (3, 2) if q else (2, 3)   # 15 jobs, one wave on 16 cores
         for sh in range(n2):
             jobs.append(("c07_lin", ["--struct", st, "--threads", 2, "--maxops", 2 if q else 3, "--maxcap", 2 if q else 3, "--bound", 3 if q else 4,
                                      "--prog-shard", "%d/%d" % (sh, n2), "--deadline", dl]))
         for sh in range(n3):
+            # quick: 3-thread programs of up to 4 operations at bound 2, those of 5-6 operations at bound 1
             jobs.append(("c07_lin", ["--struct", st, "--threads", 3, "--maxops", 2, "--maxcap", 2 if q else 3, "--bound", 2 if q else 3,
-                                     "--prog-shard", "%d/%d" % (sh, n3), "--deadline", dl]))
+                                     "--prog-shard", "%d/%d" % (sh, n3), "--deadline", dl] + (["--maxtotal", 4, "--bigbound", 1] if q else [])))
     return jobs
 
 CHECKS["C07"] = {
@@ -171,7 +172,7 @@ CHECKS["C07"] = {
              "thorough": _c07_jobs("thorough") + _free_jobs(["ulifo_uqueue_test"], [["--mode", "ring", "--threads", 3, "--iters", 30000], ["--mode", "ring", "--threads", 4, "--iters", 20000]])},
     "rule": "one 'state' = one scheduling point visited, one execution = one complete schedule of a client program; "
             "non-trivial = executions in which two operations of different threads overlapped in real time",
-    "bounds": {"quick": "2 threads x <=2 ops, preemption bound 3; 3 threads x <=2 ops, bound 2; capacities 1-2 (pool 0-2), all prefills",
+    "bounds": {"quick": "2 threads x <=2 ops, preemption bound 3; 3 threads x <=2 ops: programs of <=4 operations at bound 2, of 5-6 operations at bound 1; capacities 1-2 (pool 0-2), all prefills",
                "thorough": "2 threads x <=3 ops bound 4; 3 threads x <=2 ops bound 3; capacities 1-3"},
     "assumptions": DEFAULT_ASSUME + ["scheduling points: every uatomic_* and every plain uring_elem access; code between two points runs atomically",
                                      "sequentially consistent memory (x86-TSO + locked CAS before publication)"],
@@ -215,7 +216,7 @@ def _c08_jobs(tier):
         uq(2, 2, 1, 2, style, "coarse", 4 + d)
         uq(1, 1, 2, 2, style, "coarse", 5 + d)
         uq(2, 2, 2, 1, style, "coarse", 3 + d)
-        uq(1, 2, 2, 1, style, "coarse", 4 + d)
+        uq(1, 2, 2, 1, style, "coarse", 3 + 2 * d)
         uq(2, 1, 1, 3, style, "fine", 3 + d)
         if not q:
             uq(3, 2, 1, 2, style, "coarse", 4)
@@ -233,7 +234,7 @@ CHECKS["C08"] = {
     "jobs": {"quick": _c08_jobs("quick") + _free_jobs(["udeal_test", "ulifo_uqueue_test"], [["--mode", "uqueue", "--threads", 4, "--iters", 3000], ["--mode", "udeal", "--threads", 3, "--iters", 3000]]),
              "thorough": _c08_jobs("thorough") + _free_jobs(["udeal_test", "ulifo_uqueue_test"], [["--mode", "uqueue", "--threads", 4, "--iters", 30000], ["--mode", "udeal", "--threads", 4, "--iters", 30000]])},
     "rule": "one execution = one complete schedule; non-trivial = executions in which at least one push failed / pop starved / grab was refused (somebody went to sleep); states = scheduling points visited",
-    "bounds": {"quick": "uqueue L=1: 1P+1C x2 elems fine k<=4, 2P+1C fine k<=3 / coarse k<=6, 1P+2C coarse k<=5, 2P+2C coarse k<=4; L=2: 2P+1C x2 coarse k<=4, 2P+2C coarse k<=3, 1P+1C x3 fine k<=3; both consumer styles; udeal 2 contenders x2 rounds k<=7, 3 contenders k<=4, 3x2 rounds k<=3",
+    "bounds": {"quick": "uqueue L=1: 1P+1C x2 elems fine k<=4, 2P+1C fine k<=3 / coarse k<=6, 1P+2C coarse k<=5, 2P+2C coarse k<=3; L=2: 2P+1C x2 coarse k<=4, 2P+2C coarse k<=3, 1P+1C x3 fine k<=3; both consumer styles; udeal 2 contenders x2 rounds k<=7, 3 contenders k<=4, 3x2 rounds k<=3",
                "thorough": "same configurations one or two preemptions deeper, plus L=3 and L=2 at fine granularity"},
     "assumptions": DEFAULT_ASSUME + ["eventfd simulated in harness memory; watchers are level-triggered as with libev"],
 }
@@ -245,11 +246,13 @@ def _c10_jobs(tier):
     for (mn, ex, pool) in ((1, 1, 0), (8, 4, 2), (-1, -1, 0)):
         jobs.append(("c10_udict", ["--min", mn, "--extra", ex, "--pool", pool, "--keys", 10, "--depth", 4 if q else 5, "--deadline", dl]))
         jobs.append(("c10_udict", ["--min", mn, "--extra", ex, "--pool", pool, "--keys", 20, "--depth", 3 if q else 4, "--deadline", dl]))
-        jobs.append(("c10_udict", ["--min", mn, "--extra", ex, "--pool", pool, "--keys", 6, "--depth", 5 if q else 7, "--deadline", dl]))
+        for sh in range(6):   # the deepest job, split by first operation
+            jobs.append(("c10_udict", ["--min", mn, "--extra", ex, "--pool", pool, "--keys", 6, "--depth", 5 if q else 7, "--shard", "%d/6" % sh, "--deadline", dl]))
     jobs.append(("c10_udict", ["--min", 1, "--extra", 1, "--pool", 0, "--keys", 6, "--big", 1, "--depth", 3 if q else 4, "--deadline", dl]))
     # environment deviation: one (thorough: two) refused memory request(s) anywhere in the history
     for (mn, ex, pool) in ((1, 1, 0), (8, 4, 2)):
-        jobs.append(("c10_udict", ["--min", mn, "--extra", ex, "--pool", pool, "--keys", 6, "--faults", 1 if q else 2, "--depth", 5 if q else 6, "--deadline", dl]))
+        for sh in range(6):
+            jobs.append(("c10_udict", ["--min", mn, "--extra", ex, "--pool", pool, "--keys", 6, "--faults", 1 if q else 2, "--depth", 5 if q else 6, "--shard", "%d/6" % sh, "--deadline", dl]))
         jobs.append(("c10_udict", ["--min", mn, "--extra", ex, "--pool", pool, "--keys", 10, "--faults", 1, "--depth", 4 if q else 5, "--deadline", dl]))
     return jobs
 
